@@ -99,6 +99,12 @@ def parseOp (fs : List String) : Option Op :=
 def stepLine (s : St) (fs : List String) : St × String :=
   if fs = ["scan"] then (s, "clean") else
   if fs = ["init"] then (s, showOut (.wrote s.written.reverse)) else
+  if fs = ["reunseal"] then
+    -- Seal + Unseal with the root key: the barrier's own reader of core/keyring on whatever the store holds now
+    (s, match unsealKeyring (sget s.store keyringPath) with
+        | .ok _ => "ok" | .notInit => "err:notinit" | .short => "err:short" | .termMismatch => "err:term"
+        | .len => "err:len" | .version => "err:version" | .invalidKey => "err:invalidkey"
+        | .notKeyring => "err:notkeyring") else
   match parseOp fs with
   | none => (s, "bad-op")
   | some op => let (s', o) := step s op; (s', showOut o)
